@@ -174,6 +174,19 @@ impl Model {
             }
         }
     }
+    /// number of runtime generations that are alive (the runtime itself or a module compiled on it)
+    fn live_gens(&self) -> usize {
+        let mut gens: Vec<u32> = vec![];
+        if let Some(g) = self.rt {
+            gens.push(g);
+        }
+        for (i, m) in self.modules.iter().enumerate() {
+            if self.module_alive(i) && !gens.contains(&m.rt_gen) {
+                gens.push(m.rt_gen);
+            }
+        }
+        gens.len()
+    }
     /// multiset of payloads of tracked values that must be alive
     fn live_payloads(&self) -> Vec<u64> {
         let mut v = vec![];
@@ -315,7 +328,7 @@ const KO: Tr? = Option.Some(mk(921));
 const KE: Ek = Ek.A(mk(931));
 const KA: { n: u64, t: Tr } = { n: 2, t: mk(941) };
 fn g() -> u64 { KR.a + KA.n }
-fn f(x: u64) -> u64 { x + KI + cap() + cap2() - 801 + RC.payload() + KT.payload() }
+fn f(x: u64) -> u64 { x + KI + cap() + cap2() - 801 + capz() - 3 + RC.payload() + KT.payload() }
 fn mk_list() -> List[String] { [\"a\", \"b\"] }
 ";
 const V2: &str = "\
@@ -330,7 +343,7 @@ enum Ek { A(Tr), B }
 record Rk { a: u64, t: Tr }
 fn g() -> u64 { KR.a + KA.n }
 fn helper(x: u64) -> u64 { x * 2 }
-fn f(x: u64) -> u64 { helper(x) + KI + cap() + cap2() - 801 + RC.payload() + KT.payload() }
+fn f(x: u64) -> u64 { helper(x) + KI + cap() + cap2() - 801 + capz() - 3 + RC.payload() + KT.payload() }
 fn mk_list() -> List[String] { let l = [\"a\"]; l.push(\"b\"); l }
 ";
 
@@ -407,6 +420,16 @@ fn capturing(t: host::Tr) -> impl Fn() -> u64 + Send + Sync + 'static {
     }
 }
 
+/// A closure whose only capture is ZERO-SIZED but has a destructor (seeded change C11-8:
+/// "a function object without bytes has no data to keep alive")
+fn capturing_z(z: host::Z) -> impl Fn() -> u64 + Send + Sync + 'static {
+    move || {
+        let keep: &host::Z = &z;
+        let _ = keep;
+        3
+    }
+}
+
 fn new_runtime() -> Runtime<NoCtx> {
     let lib = library! {
         const RC: Val<host::Tr> = Val(host::Tr::new(700));
@@ -417,6 +440,8 @@ fn new_runtime() -> Runtime<NoCtx> {
         .expect("add cap");
     rt.add(roto::Function::new("cap2", "", vec![], capturing(host::Tr::new(801)), roto::location!()).expect("cap2"))
         .expect("add cap2");
+    rt.add(roto::Function::new("capz", "", vec![], capturing_z(host::Z::new()), roto::location!()).expect("capz"))
+        .expect("add capz");
     rt
 }
 
@@ -566,8 +591,9 @@ fn replay(hist: &[Op], last: Op) -> Result<String, (String, Value)> {
         }
         // invariants
         let (live, z, anomalies) = host::ledger_snapshot();
-        // every live module holds one zero-sized tracked constant (KZ)
-        let want_z = (0..model.modules.len()).filter(|m| model.module_alive(*m)).count() as i64;
+        // every live module holds one zero-sized tracked constant (KZ); every live runtime
+        // generation holds the zero-sized value captured by the registered closure `capz`
+        let want_z = (0..model.modules.len()).filter(|m| model.module_alive(*m)).count() as i64 + model.live_gens() as i64;
         if z as i64 != want_z {
             let class = if (z as i64) < want_z { "released-too-early" } else { "not-released" };
             return Err((class.into(), json!({"step": step, "live_zero_sized_constants": z, "model": want_z})));
